@@ -222,6 +222,9 @@ func body12two(s scn, comp ch.Compression) Body {
 	return func() Outcome {
 		opt := s.opt
 		opt.Compression = comp
+		// both clients are made from ONE Options value, as the connections of a pool are; its
+		// settings slice has spare capacity (built with append), and the queries bring their own
+		opt.Settings = append(make([]ch.Setting, 0, 4), ch.Setting{Key: "max_threads", Value: "1"})
 		name := fmt.Sprintf("C12/two-clients/%s", s.name)
 		c1, err := Connect(opt, baseHello)
 		if err != nil {
@@ -235,6 +238,8 @@ func body12two(s scn, comp ch.Compression) Body {
 		defer vsched.Quiet(func() { _ = c2.C.Close() })
 		q1, st1 := s.mk(c1, &failAt{})
 		q2, st2 := s.mk(c2, &failAt{})
+		q1.Settings = []ch.Setting{{Key: "first", Value: "1"}, {Key: "x", Value: "1"}}
+		q2.Settings = []ch.Setting{{Key: "second", Value: "2"}}
 		c1.RunPeer("peer", c1.HsLen, st1, nil)
 		c2.RunPeer("peer2", c2.HsLen, st2, nil)
 		fin := make(chan error, 1)
